@@ -31,7 +31,7 @@ func snapshotShared() map[string]*admissionv1.AdmissionResponse {
 func C15(seed int64, n int) (*cq.Set, *cq.Interner) {
 	r := rand.New(rand.NewSource(seed))
 	in := cq.NewInterner()
-	set := &cq.Set{Stream: "c15", Seed: seed, Imports: "Model.Api Model.Pod Model.Checks Model.Admission Corr.Adm Corr.C15", CaseTy: "c15_case", RunFn: "run_c15",
+	set := &cq.Set{Stream: "c15", Seed: seed, Imports: "Model.Api Model.Pod Model.Checks Model.Admission Model.Wire Corr.Adm Corr.C15", CaseTy: "c15_case", RunFn: "run_c15",
 		Rule: "histories of 40 requests (pods, controllers, namespaces; all fault and exemption classes) under one configuration per history: each request is answered by a freshly constructed Admission, by one long-lived Admission (real PrometheusRecorder) after all earlier requests of the history, and by the same long-lived instance while 16 goroutines replay the whole history concurrently; the five shared response objects are snapshotted after every request; distinct by (config, request, world); non-trivial = at least one dependency call"}
 	initial := snapshotShared()
 	histories := n / 40
